@@ -118,21 +118,28 @@ func c20RulesExec(cs hx.Sx) hx.Sx {
 	it := hx.Items(cs)
 	T, MI, U := int(hx.Int(it[0])), hx.Int(it[1]), int(hx.Int(it[2]))
 	nsrc := int(hx.Int(it[3]))
-	var exc antispam.Exceptions
-	for i, ev := range hx.Items(it[4]) {
-		e := c20ExcOfSx(ev)
-		rs := matchrule.RuleSet{Name: "e" + strconv.Itoa(i), Cond: matchrule.CondAnd}
-		if e.or {
-			rs.Cond = matchrule.CondOr
-		}
-		for _, r := range e.rules {
-			vals := make([]string, len(r.vals))
-			for k, v := range r.vals {
-				vals[k] = string(v)
+	var excs []c20Exc
+	for _, ev := range hx.Items(it[4]) {
+		excs = append(excs, c20ExcOfSx(ev))
+	}
+	// as fd does (extractAntispamExceptions): from the JSON text of the configuration, whenever the values can be
+	// written as JSON strings (valid UTF-8); else the structs are filled in directly
+	exc, viaJSON := c20ExceptionsFromJSON(excs)
+	if !viaJSON {
+		for i, e := range excs {
+			rs := matchrule.RuleSet{Name: "e" + strconv.Itoa(i), Cond: matchrule.CondAnd}
+			if e.or {
+				rs.Cond = matchrule.CondOr
 			}
-			rs.Rules = append(rs.Rules, matchrule.Rule{Values: vals, Mode: matchrule.Mode(r.mode), CaseInsensitive: r.ci, Invert: r.inv})
+			for _, r := range e.rules {
+				vals := make([]string, len(r.vals))
+				for k, v := range r.vals {
+					vals[k] = string(v)
+				}
+				rs.Rules = append(rs.Rules, matchrule.Rule{Values: vals, Mode: matchrule.Mode(r.mode), CaseInsensitive: r.ci, Invert: r.inv})
+			}
+			exc = append(exc, antispam.Exception{RuleSet: rs, CheckSourceName: e.name})
 		}
-		exc = append(exc, antispam.Exception{RuleSet: rs, CheckSourceName: e.name})
 	}
 	exc.Prepare()
 	a := antispam.NewAntispammer(&antispam.Options{
@@ -172,7 +179,11 @@ func c20RulesExec(cs hx.Sx) hx.Sx {
 		buf := append(append(make([]byte, 0, len(ev)+4), ev...), 0xEE, 0xEE, 0xEE, 0xEE)
 		var spam bool
 		if msg := hx.Catch(func() { spam = a.IsSpam(strconv.Itoa(id), name, isNew, buf[:len(ev):len(ev)], time.Unix(0, t), nil) }); msg != "" {
-			out = append(out, hx.S(msg))
+			if strings.Contains(msg, "rule must be prepared") { // a rule without values was reached (model: MPanic)
+				out = append(out, hx.I(2))
+			} else {
+				out = append(out, hx.S(msg))
+			}
 			continue
 		}
 		if !bytes.Equal(buf[:len(ev)], ev) || !bytes.Equal(buf[len(ev):], []byte{0xEE, 0xEE, 0xEE, 0xEE}) {
